@@ -3,6 +3,7 @@ C15 — a mapreduce outfile is never observable half-written.
 -/
 import DtailModel.Lemmas.Outfile
 import DtailModel.Lemmas.GenOutfile
+set_option autoImplicit false
 namespace Dtail.C15
 open Dtail
 
